@@ -97,10 +97,12 @@ Qed.
 Print Assumptions C14_removed_keys_refuted.
 
 From Sge Require Import Gen.kernels Proofs.GenKernels.
-(* the threshold and the expiry test of the model ARE the Go methods (KeyVault.MajorityCount for every vault size up to 1000,
-   PublicKeysChangeProposal.IsExpired): generated from x/ovm/types on every run *)
+(* the threshold, the vote count with its verdict, and the expiry test of the model ARE the Go methods (KeyVault.MajorityCount for every
+   vault size up to 1000, PublicKeysChangeProposal.DecideResult with its loop over the recorded votes, PublicKeysChangeProposal.IsExpired):
+   generated from x/ovm/types on every run *)
 Theorem C14_kernels_generated :
-  (forall n, 0 <= n <= 1000 -> K_KeyVault_MajorityCount {| G_KeyVault_PublicKeys := n |} = majority_count n) /\
+  (forall keys, zlen keys <= 1000 -> K_KeyVault_MajorityCount (kv_of keys) = majority_count (zlen keys)) /\
+  (forall p keys, zlen keys <= 1000 -> K_PublicKeysChangeProposal_DecideResult (gprop_of p) (kv_of keys) = decide p (zlen keys)) /\
   (forall p now, K_PublicKeysChangeProposal_IsExpired (gprop_of p) now = (1800 <? now - pp_start p)).
-Proof. split; [exact gen_MajorityCount|exact gen_IsExpired]. Qed.
+Proof. split; [exact gen_MajorityCount|split; [exact gen_DecideResult|exact gen_IsExpired]]. Qed.
 Print Assumptions C14_kernels_generated.
